@@ -15,12 +15,14 @@
 (* TLC explores every iteration order.  Sites transcribes the code:        *)
 (*   file-report   eval_context.rs:1619  FileReport: IndexMap / BTreeSet   *)
 (*   summary       summary_table.rs:168  BTreeSet of rule names            *)
-(*   test-rules    reporters/test/mod.rs:8 get_by_rules: HashMap, walked   *)
-(*                 by the test reporters                                   *)
+(*   test-rules    reporters/test/mod.rs:8 get_by_rules: IndexMap (was a   *)
+(*                 HashMap before the fix), walked by the test reporters   *)
 (*   console-detail generic_summary.rs:55 / common.rs:341: HashMap by      *)
 (*                 resource / rule, detail lines                           *)
-(*   at-least-one  eval.rs:673 report_at_least_one: HashMap -> values      *)
-(*   rulegen       rulegen.rs: HashMap of HashMap of HashSet               *)
+(*   at-least-one  eval.rs:673 report_at_least_one: HashMap, one key per   *)
+(*                 call (called per left-hand value)                       *)
+(*   rulegen       rulegen.rs: HashMap of HashMap of HashSet, printed      *)
+(*                 sorted (unsorted before the fix)                        *)
 (* OrderFree(s) says the rendered sequence does not depend on perm;        *)
 (* LinesFree(s) says the multiset of rendered lines does not.  The model   *)
 (* checks OrderFree for the sites feeding byte-compared outputs and        *)
@@ -50,15 +52,16 @@ Walk(container, p) ==
   CASE container = "index" -> Dedup(Arrival, {})
     [] container = "btree" -> Sorted
     [] container = "hash"  -> p
+    [] container = "hash1" -> <<Arrival[1]>>     \* a hash table that never holds more than one key
 
 Sites == {
   [name |-> "file-report",    container |-> "index", sorted |-> FALSE, out |-> "bytes", inline |-> FALSE],
   [name |-> "summary",        container |-> "btree", sorted |-> FALSE, out |-> "bytes", inline |-> FALSE],
-  [name |-> "test-rules",     container |-> "hash",  sorted |-> FALSE, out |-> "bytes", inline |-> FALSE],
+  [name |-> "test-rules",     container |-> "index", sorted |-> FALSE, out |-> "bytes", inline |-> FALSE],
   [name |-> "console-detail", container |-> "hash",  sorted |-> FALSE, out |-> "lines", inline |-> FALSE],
-  [name |-> "at-least-one",   container |-> "hash",  sorted |-> FALSE, out |-> "bytes", inline |-> FALSE],
+  [name |-> "at-least-one",   container |-> "hash1", sorted |-> FALSE, out |-> "bytes", inline |-> FALSE],
   \* rulegen also walks a hash set *inside* one printed line (the values of an IN list)
-  [name |-> "rulegen",        container |-> "hash",  sorted |-> FALSE, out |-> "lines", inline |-> TRUE]}
+  [name |-> "rulegen",        container |-> "hash",  sorted |-> TRUE,  out |-> "lines", inline |-> TRUE]}
 
 Render(s, p) == IF s.sorted THEN Sorted ELSE Walk(s.container, p)
 \* one line per key; an inline site additionally puts the walk order into a line
@@ -75,5 +78,11 @@ Exposed == {s.name : s \in {x \in Sites : (x.out = "bytes" /\ ~OrderFree(x)) \/ 
 Stable == \A s \in Sites : s.name \in {"file-report", "summary"} => OrderFree(s)
 ConsoleLines == \A s \in Sites : s.name = "console-detail" => LinesFree(s)
 \* and these are the sites the trace check must watch
-Watch == Exposed = {"test-rules", "at-least-one", "rulegen"}
+Watch == Exposed = {}
+\* the design before fix commits <get_by_rules IndexMap> and <rulegen sorted>: a hash table feeding
+\* byte-compared output, and one walked inside a printed line, are exposed
+OldSites == {[name |-> "test-rules-before", container |-> "hash", sorted |-> FALSE, out |-> "bytes", inline |-> FALSE],
+             [name |-> "rulegen-before",    container |-> "hash", sorted |-> FALSE, out |-> "lines", inline |-> TRUE]}
+OldExposed == \A s \in OldSites : IF s.out = "bytes" THEN \E p \in Perms : Render(s, p) # Render(s, perm)
+                                                      ELSE \E p \in Perms : LinesOf(s, p) # LinesOf(s, perm)
 =============================================================================
